@@ -41,6 +41,13 @@ type svBeh struct {
 	End   string `json:"end"`   // "err" | "nil" | "panic" | "stay" | "done"
 	Lat   int    `json:"lat"`   // work units during which a cancelled context is ignored after it was noticed
 	Blind int    `json:"blind"` // first work units during which the context is not even looked at
+	// Linger: (End == "done") work units the runnable keeps running AFTER it signalled Done, ignoring its context,
+	// before it returns nil.  The instance still counts as running: no second instance may be started meanwhile.
+	Linger int `json:"linger"`
+	// After: "dn#inst:Ev" - the End action is held back (the runnable keeps working and honouring its context)
+	// until the harness has logged that line, so that a failure can be placed inside another service's linger
+	// without any wall-clock coordination.
+	After string `json:"after"`
 }
 
 type svShape struct {
@@ -91,6 +98,7 @@ type svTree struct {
 	active   map[string]int     // instances entered and not exited per dn
 	cur      map[string]*svInst // latest instance per dn
 	lastProg time.Time
+	seen     map[string]bool // "dn#inst:Ev" of every logged service line
 	killed   bool
 	ended    bool
 	doubles  int
@@ -143,6 +151,11 @@ func (t *svTree) emit(ev string, a map[string]interface{}) {
 	t.n++
 	if a == nil {
 		a = map[string]interface{}{}
+	}
+	if dn, ok := a["dn"].(string); ok {
+		if no, ok := a["inst"].(int); ok {
+			t.seen[fmt.Sprintf("%s#%d:%s", dn, no, ev)] = true
+		}
 	}
 	b, err := json.Marshal(map[string]interface{}{"t": t.sc.ID, "n": t.n, "g": svT.g, "ev": ev, "a": a, "s": t.snapshot()})
 	if err != nil {
@@ -237,6 +250,7 @@ func (t *svTree) runnable(dn string) Runnable {
 		k := in.beh.K
 		step := 0
 		fault := in.beh.End == "err" || in.beh.End == "nil" || in.beh.End == "panic"
+		holdUntil := time.Now().Add(6 * time.Second) // a trigger that never comes does not hold the End back for ever
 		for {
 			if sawc {
 				if lat <= 0 {
@@ -253,7 +267,15 @@ func (t *svTree) runnable(dn string) Runnable {
 				continue
 			}
 			if in.beh.End != "stay" && k <= 0 {
-				break
+				held := false
+				if in.beh.After != "" {
+					svT.mu.Lock()
+					held = !t.seen[in.beh.After] && time.Now().Before(holdUntil)
+					svT.mu.Unlock()
+				}
+				if !held {
+					break
+				}
 			}
 			if step < in.beh.Blind {
 				time.Sleep(unit) // not even looking at the context
@@ -288,6 +310,9 @@ func (t *svTree) runnable(dn string) Runnable {
 		switch in.beh.End {
 		case "done":
 			t.log("Done", map[string]interface{}{"dn": dn, "inst": no}, func() { in.done = true; Signal(ctx, SignalDone) })
+			for i := 0; i < in.beh.Linger; i++ {
+				time.Sleep(unit) // completed, but still running
+			}
 			exit("nil")
 			return nil
 		case "nil":
@@ -501,7 +526,7 @@ func TestVerifSupervisor(t *testing.T) {
 		}
 	}()
 	for i := range scs {
-		tr := &svTree{sc: scs[i], count: map[string]int{}, active: map[string]int{}, cur: map[string]*svInst{}, lastProg: time.Now()}
+		tr := &svTree{sc: scs[i], count: map[string]int{}, active: map[string]int{}, cur: map[string]*svInst{}, seen: map[string]bool{}, lastProg: time.Now()}
 		wg.Add(1)
 		sem <- struct{}{}
 		go func() {
